@@ -24,11 +24,13 @@
 package c14
 
 import (
+	"bytes"
 	"context"
 	"errors"
 	"fmt"
 	"os"
 	"path/filepath"
+	"reflect"
 	"regexp"
 	"runtime"
 	"runtime/debug"
@@ -37,6 +39,7 @@ import (
 	"strings"
 	"testing"
 	"time"
+	"unsafe"
 
 	"github.com/d5/tengo/v2"
 	"pgregory.net/rapid"
@@ -114,6 +117,8 @@ type casePayload struct {
 	MaxStringLen int      `json:"max_string_len,omitempty"`
 	MaxBytesLen  int      `json:"max_bytes_len,omitempty"`
 	Meta         caseMeta `json:"meta"`
+
+	lastModules *tengo.ModuleMap // module map of the latest compile() (for decoding the bytecode again)
 }
 
 // ---------- running ----------
@@ -131,6 +136,7 @@ func (p *casePayload) compile(ticks *int) (c *tengo.Compiled, err error) {
 	}
 	hf := hostFuncs(ticks)
 	mm.AddBuiltinModule("host", hf)
+	p.lastModules = mm
 	s.SetImports(mm)
 	for _, n := range hostNames() {
 		if err := s.Add("h"+n, hf[n]); err != nil {
@@ -168,6 +174,24 @@ func (p *casePayload) run(api string) (o outcome, compileErr error) {
 			o.hung = true
 		}
 		return o, nil
+	}
+	if api == "RunDecoded" {
+		// the same program after a trip through Bytecode.Encode / Decode (as
+		// compiled files take): locations and traces must survive it
+		f := reflect.ValueOf(c).Elem().FieldByName("bytecode")
+		if !f.IsValid() || f.Type() != reflect.TypeOf((*tengo.Bytecode)(nil)) {
+			return o, fmt.Errorf("cannot reach Compiled.bytecode (field renamed?)")
+		}
+		bc := (*tengo.Bytecode)(unsafe.Pointer(f.Pointer()))
+		var buf bytes.Buffer
+		if err := bc.Encode(&buf); err != nil {
+			return o, fmt.Errorf("encode: %w", err)
+		}
+		dec := &tengo.Bytecode{}
+		if err := dec.Decode(bytes.NewReader(buf.Bytes()), p.lastModules); err != nil {
+			return o, fmt.Errorf("decode: %w", err)
+		}
+		*bc = *dec
 	}
 	func() {
 		defer func() {
@@ -367,7 +391,7 @@ func (p *casePayload) checkEach() (violations []string, infra string) {
 		tengo.MaxBytesLen = p.MaxBytesLen
 		defer func() { tengo.MaxBytesLen = old }()
 	}
-	for _, api := range []string{"RunContext", "Run"} {
+	for _, api := range []string{"RunContext", "Run", "RunDecoded"} {
 		o, cerr := p.run(api)
 		if cerr != nil {
 			return nil, fmt.Sprintf("generated program does not compile: %v", cerr)
